@@ -242,7 +242,10 @@ def run_invariance(ctx):
         return
     # rank family: strictly increasing maps of either argument (bitwise)
     maps = {'exp': lambda x: np.exp(x / 3.0), 'cubic': lambda x: x ** 3 + 2 * x,
-            'sqrt': lambda x: np.sqrt(x), 'affine': lambda x: 2.5 * x + 1.0}
+            'sqrt': lambda x: np.sqrt(x), 'affine': lambda x: 2.5 * x + 1.0,
+            # changes of unit and compressing maps: still strictly increasing (checked in floating point below), the
+            # values just become small or close together
+            'tiny_unit': lambda x: x * 1e-12, 'huge_unit': lambda x: x * 1e9, 'compress': lambda x: 1.0 + 1e-7 * x}
     mk = gen.pick(rng, list(maps))
     side = int(rng.integers(2))
     src = v1 if side == 0 else v2
